@@ -3124,7 +3124,10 @@ class _Simu(_IObserver, _params.Updatable, ABC):
         return "Unspecified."
 
     def Results_Reshape_values(
-        self, values: _types.FloatArray, nodeValues: bool
+        self,
+        values: _types.FloatArray,
+        nodeValues: bool,
+        storedAtNodes: Optional[bool] = None,
     ) -> _types.FloatArray:
         """Reshapes input values based on whether they are stored at nodes or elements.
 
@@ -3134,6 +3137,9 @@ class _Simu(_IObserver, _params.Updatable, ABC):
             Input values to reshape.
         nodeValues : bool
             If True, the output will represent values at nodes; if False, values on elements will be derived.
+        storedAtNodes : bool, optional
+            True if the input values are stored at nodes, False if they are stored on elements, by default None.\n
+            If None, it is deduced from the size of the values, which is ambiguous when that size is a multiple of both Nn and Ne (e.g. Ne = 1, or Nn = Ne).
 
         Returns
         -------
@@ -3151,15 +3157,19 @@ class _Simu(_IObserver, _params.Updatable, ABC):
 
         is1d = values.ndim == 1
 
+        # where the values are stored: as stated, otherwise deduced from their size
+        atNodes = values.size % Nn == 0 and storedAtNodes is not False
+        atElems = values.size % Ne == 0 and storedAtNodes is not True
+
         if nodeValues:
             shape = -1 if is1d else (Nn, -1)
-            if values.size % Nn == 0:
+            if atNodes:
                 # values stored at nodes
                 if is1d:
                     return values.ravel()
                 else:
                     return values.reshape(Nn, -1)
-            elif values.size % Ne == 0:
+            elif atElems:
                 # values stored at elements
                 values_e = values.reshape(Ne, -1)
                 # get node values from element values
@@ -3167,9 +3177,9 @@ class _Simu(_IObserver, _params.Updatable, ABC):
                 return values_n.reshape(shape)
         else:
             shape = -1 if is1d else (Ne, -1)
-            if values.size % Ne == 0:
+            if atElems:
                 return values.reshape(shape)
-            elif values.size % Nn == 0:
+            elif atNodes:
                 # get values stored at nodes (Nn, i)
                 values_n = values.reshape(Nn, -1)
                 # average over each element's nodes, group by group (element
